@@ -2,6 +2,7 @@ import ScrapliModel.Lemmas.Telnet
 import ScrapliModel.Lemmas.GoSem
 import ScrapliModel.Lemmas.TelnetBody
 import ScrapliModel.Generated.BodiesTelnet
+import ScrapliModel.Generated.BodiesByteIsAny
 /-!
 # C15 — tie to the source: translated body = model (regenerated on every run)
 
@@ -64,5 +65,19 @@ buffer — `ctrlBuf` is a local of `handleControlChars` initialised empty, or a 
 `generated_handleControlCharResponse_eq` this is what makes `openWith` (fresh parser state) the
 model of every `Open`, cf. `C15.open_history_independent`. -/
 theorem ctrl_fresh_per_open : Gen.Bodies.Telnet.ctrlFreshPerOpen = true := by decide
+
+/-- the `range` loop of `util.ByteIsAny` as translated from the current source is list membership —
+which is what the translator's library table renders its call sites in
+`handleControlCharResponse` as -/
+theorem generated_byteIsAny_eq (b : UInt8) (l : Bytes) :
+    Gen.Bodies.ByteIsAny.byteIsAny b l = l.contains b := by
+  unfold Gen.Bodies.ByteIsAny.byteIsAny Go.forRange
+  rw [Go.forRangeFrom_find (fun ss => b == ss) (fun _ => true)]
+  induction l with
+  | nil => simp
+  | cons a l ih =>
+    simp only [List.find?, List.contains_cons]
+    cases h : b == a <;> simp [ih]
+
 
 end Scrapli.Telnet.Body.C15
